@@ -413,7 +413,7 @@ func (w *World) Digest(ctx sdk.Context) [32]byte {
 	}
 	for _, k := range w.KV {
 		put([]byte(k.Name()))
-		it := ctx.KVStore(k).Iterator(nil, nil)
+		it := ctx.MultiStore().GetKVStore(k).Iterator(nil, nil) // the branch's store itself, without the gas-metering wrapper
 		for ; it.Valid(); it.Next() {
 			put(it.Key())
 			put(it.Value())
@@ -433,7 +433,7 @@ func (w *World) Digest(ctx sdk.Context) [32]byte {
 func (w *World) Dump(ctx sdk.Context) map[string][]byte {
 	out := map[string][]byte{}
 	for _, k := range w.KV {
-		it := ctx.KVStore(k).Iterator(nil, nil)
+		it := ctx.MultiStore().GetKVStore(k).Iterator(nil, nil)
 		for ; it.Valid(); it.Next() {
 			out[k.Name()+"/"+hex.EncodeToString(it.Key())] = append([]byte(nil), it.Value()...)
 		}
